@@ -164,6 +164,7 @@ impl Report {
         let mut known_printed: Vec<String> = Vec::new();
         let mut viol_keys = Vec::new();
         let mut known_keys = Vec::new();
+        let (mut gate_reproduced, mut gate_unsupported, mut gate_failed, mut gate_blocking) = (0u64, 0u64, 0u64, 0u64);
         let replay_dir = PathBuf::from(VERIF_DIR).join("replays").join(self.prop);
         for (key, (count, vs)) in &self.violations {
             if let Some(f) = known.matches(self.prop, key) {
@@ -200,6 +201,31 @@ impl Report {
                 ]);
                 let _ = fs::write(&path, j.to_pretty());
                 eprintln!("[{}] violation key={} :: {}", self.prop, v.key, v.what);
+                // determinism gate: the replay record is re-executed twice without the explorer; a
+                // violation that its own record does not reproduce is not reported as a verdict
+                // (C12 and the OS-timed pipe confirmations are about run-to-run variation itself)
+                if printed < 6 {
+                    let timing = self.prop == "C12" || v.key.contains("pipe");
+                    let runs: Vec<Option<Vec<String>>> = (0..2).map(|_| crate::props::replay_case(self.prop, &v.replay)).collect();
+                    match (&runs[0], &runs[1]) {
+                        (Some(a), Some(b)) if !a.is_empty() && !b.is_empty() => gate_reproduced += 1,
+                        (None, _) | (_, None) => gate_unsupported += 1,
+                        (a, b) => {
+                            gate_failed += 1;
+                            eprintln!(
+                                "[{}] replay of {} did not reproduce the violation (run 1: {:?}, run 2: {:?}){}",
+                                self.prop,
+                                path.display(),
+                                a.as_ref().map(|x| x.len()),
+                                b.as_ref().map(|x| x.len()),
+                                if timing { " - kept: this check is about run-to-run variation" } else { "" }
+                            );
+                            if !timing {
+                                gate_blocking += 1;
+                            }
+                        }
+                    }
+                }
                 println!("VIOLATION property={} replay={}", self.prop, path.display());
                 printed += 1;
             }
@@ -242,6 +268,14 @@ impl Report {
                 ),
             ),
             ("inconclusive".to_string(), J::Int(self.inconclusive as i64)),
+            (
+                "determinism_gate".to_string(),
+                J::obj([
+                    ("violations_replayed_twice_and_reproduced", J::Int(gate_reproduced as i64)),
+                    ("without_standalone_replay", J::Int(gate_unsupported as i64)),
+                    ("not_reproduced", J::Int(gate_failed as i64)),
+                ]),
+            ),
             ("violation_keys".to_string(), J::Arr(viol_keys)),
             ("known_finding_keys".to_string(), J::Arr(known_keys)),
             (
@@ -280,6 +314,10 @@ impl Report {
             self.exhaustive,
             wall
         );
+        if gate_blocking > 0 {
+            eprintln!("ENGINE: {gate_blocking} violation(s) were not reproduced by their own replay records; this is a machinery failure (uncaptured nondeterminism or an incomplete replay record), not a verdict");
+            return 2;
+        }
         exit
     }
 }
